@@ -230,7 +230,7 @@ fn denom_grant() -> BoxedStrategy<Den> {
     prop_oneof![6 => any::<u16>().prop_map(Den::Held), 16 => (0u8..3).prop_map(Den::Ix), 2 => Just(Den::Ix(3)), 1 => Just(Den::Ix(4))].boxed()
 }
 fn denom_decrease() -> BoxedStrategy<Den> {
-    prop_oneof![8 => any::<u16>().prop_map(Den::Held), 2 => (0u8..3).prop_map(Den::Ix), 1 => Just(Den::Ix(3))].boxed()
+    prop_oneof![24 => any::<u16>().prop_map(Den::Held), 6 => (0u8..3).prop_map(Den::Ix), 2 => Just(Den::Ix(3)), 1 => Just(Den::Ix(4))].boxed()
 }
 fn bytes() -> BoxedStrategy<Vec<u8>> {
     proptest::collection::vec(any::<u8>(), 0..5).boxed()
@@ -1674,7 +1674,7 @@ fn d_den(u: &mut arbitrary::Unstructured, w: [u32; 3]) -> Den {
     match d_arm(u, &w) {
         0 => Den::Held(d_sel(u)),
         1 => Den::Ix(arb_below(u, 3) as u8),
-        _ => Den::Ix(3),
+        _ => if arb_bool(u, 1, 3) { Den::Ix(4) } else { Den::Ix(3) },
     }
 }
 fn d_den_msg(u: &mut arbitrary::Unstructured) -> Den {
